@@ -15,11 +15,17 @@ WHAT = {
 }
 REGION = {2: 'D10', 3: 'D34', 4: 'D30', 5: 'D26'}
 
-def classify(c, fail, exception_ok=False):
+def meta_like(t):
+    """the target also occurs in text the engine itself generates for a tracked change of this session (wrappers, [Chg:n] author)"""
+    tpl = '{++X++}{--X--}{>>[Chg:00] %s\n[Chg:00] %s<<}{==X==}' % (E.AUTHOR, E.AUTHOR)
+    return re.sub(r'\d', '0', t) in tpl or re.sub(r'\d', '0', t) in tpl.replace('00', '0') or re.sub(r'\d', '0', t) in tpl.replace('00', '000')
+def classify(c, fail, exception_ok=False, meta_region=False):
     """-> (fail, known) per the model's Outside code for this input"""
     if not fail: return (None, None)
     code = c.get('outside', 0)
-    if code == 0: return (fail, None)
+    if code == 0:
+        if meta_region and len(c.get('edits', [])) > 1 and any(meta_like(e[0]) for e in c['edits']): return (fail, ('D39', WHAT['D39']))
+        return (fail, None)
     if code == 1:
         return (None, None) if exception_ok else (fail, ('D26', WHAT['D26']))
     fid = REGION.get(code)
@@ -39,14 +45,10 @@ def conflicting(c, raw, clean):
     return len(set(ts)) != len(ts)
 
 def judge_C01(c, raw, clean, raw_out): return [classify(c, E.oracle_C01(c), exception_ok=True)]
-def meta_like(t):
-    """the target also occurs in text the engine itself generates for a tracked change of this session (wrappers, [Chg:n] author)"""
-    tpl = '{++X++}{--X--}{>>[Chg:00] %s\n[Chg:00] %s<<}{==X==}' % (E.AUTHOR, E.AUTHOR)
-    return re.sub(r'\d', '0', t) in tpl or re.sub(r'\d', '0', t) in tpl.replace('00', '0') or re.sub(r'\d', '0', t) in tpl.replace('00', '000')
 def judge_C02(c, raw, clean, raw_out):
     f, applicable = E.oracle_C02(c, raw, clean)
     if f and c.get('outside', 0) == 0 and len(c['edits']) > 1 and any(meta_like(e[0]) for e in c['edits']): return [(f, ('D39', WHAT['D39']))]
-    return [classify(c, f)]
+    return [classify(c, f, meta_region=True)]
 def in_virtual(c, raw):
     """some target occurs in the raw view more often than in the real text of the paragraphs: it (also) matches virtual text"""
     real = '\n'.join(E.para_texts(c['din'], 'raw'))
@@ -55,7 +57,28 @@ def judge_C08(c, raw, clean, raw_out):
     f = E.oracle_C08(c)
     if f and c.get('outside', 0) == 0 and 'subset' in f and in_virtual(c, raw): return [(f, ('D40', WHAT['D40']))]
     if f and c.get('outside', 0) == 0 and 'subset' in f and conflicting(c, raw, clean): print('D37CASE', c['edits'], f[:300]); return [(f, ('D37', WHAT['D37']))]
-    return [classify(c, f)]
+    return [classify(c, f, meta_region=True)]
 def judge_C09(c, raw, clean, raw_out): return [classify(c, E.oracle_C09(c))]
 def judge_C10(c, raw, clean, raw_out): return [classify(c, E.oracle_C10(c, raw_out))]
 def judge_C16(c, raw, clean, raw_out): return [classify(c, E.oracle_C16(c))]
+
+def bold_led_para(d):
+    """some paragraph of the document starts with a bold text-bearing run: the only paragraphs whose "## " prefix is a
+    function of their text (get_paragraph_prefix step 3); gate of finding D42"""
+    def runs(nodes):
+        for n in nodes:
+            if n[0] == 'run': yield n
+            elif n[0] in ('ins', 'del'): yield from runs(n[3])
+    def walk(blocks):
+        for b in blocks:
+            if b['t'] == 'p':
+                for r in runs(b['nodes']):
+                    if ''.join(k[1] for k in r[3] if k[0] in ('t', 'dt')).strip():
+                        if any(x[0] == 1 and x[1] >= 1 for x in (r[2] or [])): return True
+                        break
+            elif b['t'] == 'tbl':
+                for row in b['rows']:
+                    for cell in row:
+                        if walk(cell['blocks'] if isinstance(cell, dict) else cell[-1]): return True
+        return False
+    return any(walk(st['blocks']) for st in d['stories'])
